@@ -35,6 +35,11 @@ theorem getI_nonneg {α : Type} (xs : List α) (i : Int) (n : Nat) (h : i = (n :
 theorem intOfBits_eq (s : Bits) : Py.intOfBits? s = if s.isEmpty then none else some (natOfBits s) := by
   unfold Py.intOfBits?; cases s <;> simp
 
+/-- the spellings of "the list is not empty" (`if xs:`, `len(xs) != 0`, `len(xs) >= 1`, `len(xs) > 0`) -/
+theorem ne_nil_eq_pos {α : Type} (xs : List α) : (xs ≠ []) = (xs.length > 0) := by cases xs <;> simp
+theorem length_ne_zero_eq_pos {α : Type} (xs : List α) : (xs.length ≠ 0) = (xs.length > 0) := by cases xs <;> simp
+theorem length_ge_one_eq_pos {α : Type} (xs : List α) : (xs.length ≥ 1) = (xs.length > 0) := by cases xs <;> simp
+
 /-! ### loops -/
 
 /-- two loops with pointwise equal bodies -/
